@@ -3,7 +3,7 @@
 From Coq Require Import String.
 From Coq Require Import List Bool Arith NArith.
 Import ListNotations.
-Require Import Str G_juniper JunModel JunProofs.
+Require Import Str G_juniper JunModel JunProofs PyLib G_fn_jun RefJun.
 
 Theorem C18_encrypt_then_decrypt_is_identity :
   forall plain salt : str, Forall (fun c => (c < 256)%N) plain ->
@@ -14,6 +14,12 @@ Proof. exact encrypt_decrypt_roundtrip. Qed.
 Theorem C18_decrypt_fails_only_with_ValueError :
   forall crypt : str, (exists p, decrypt crypt = JOk p) \/ decrypt crypt = JValueError.
 Proof. exact decrypt_refuses_with_value_error. Qed.
+
+(* TIE A (function level): the per-character functions GENERATED on this run from utils/juniper_secrets.py agree with the model on
+   the whole finite domain a round trip can reach (7 rows x 65 previous characters x 256 code points): a finite sweep, stated as such *)
+Theorem C18_generated_per_character_functions_agree_with_the_model_sweep :
+  forallb (fun row => forallb (fun p => forallb (fun c => enc_agrees row p c && dec_agrees row p c) bytes256) NUM_ALPHA) ENCODING = true.
+Proof. exact generated_per_character_functions_agree_with_the_model. Qed.
 
 (* the full statement (no guard on the empty plaintext) is FALSE of the faithful model: known finding D17 *)
 Theorem C18_empty_plaintext_refuted :
@@ -29,3 +35,4 @@ Proof. vm_compute. repeat split; reflexivity. Qed.
 Print Assumptions C18_encrypt_then_decrypt_is_identity.
 Print Assumptions C18_decrypt_fails_only_with_ValueError.
 Print Assumptions C18_empty_plaintext_refuted.
+Print Assumptions C18_generated_per_character_functions_agree_with_the_model_sweep.
